@@ -666,7 +666,17 @@ def corpus():
         return {"op": op, "init": {"test": test, "estim": estim, "bet": bet, "u": u, "N": N, "t": t, "ro": ro,
                                    "kw": {k: v for k, v in kw.items()}, "u_now": None},
                 "x": x, "stream": stream}
+    def cut(case, k):
+        case["cut_hint"] = k
+        return case
     return [
+        # round 9: the observed total lands EXACTLY on N t (float reformulations of `total > N t` differ only there)
+        c("alpha_mart", ["1", "1"], N=50, t="1/25", stream="boundary:corpus"),                 # (1/49)*49 < 1
+        c("betting_mart", ["1", "1"], N=50, t="1/25", stream="boundary:corpus"),
+        cut(c("alpha_mart", ["1/10", "1/5", "0"], N=3, t="1/10", stream="boundary:corpus"), 2),  # fl(0.3/3) > 0.1
+        cut(c("betting_mart", ["1/10", "1/5", "0"], N=3, t="1/10", stream="boundary:corpus"), 2),
+        c("alpha_mart", ["1"] * 28 + ["0"] * 11 + ["1"], N=50, t="29/50", stream="boundary:corpus"),  # fl(50*0.58) < 29 = fl(29/50)*50
+        c("betting_mart", ["1"] * 28 + ["0"] * 11 + ["1"], N=50, t="29/50", stream="boundary:corpus"),
         # section 6 witnesses (F01-F08, F21): the repaired code must agree with the model on them
         c("wald_sprt", ["1", "1", "1"], eta="7/10"),
         c("wald_sprt", ["0"], eta="7/10"),
@@ -1240,6 +1250,12 @@ def gen_boundary(rng, tier):
             if rng.chance(0.6):
                 N, K = rng.choice(_OFF_PAIRS)      # the float product N * (K/N) is not K
             n = rng.randint(K, N)
+            if rng.chance(0.3):
+                # N - n + 1 cards left before the last draw, a number k with (1/k) * k != 1 in floats (49, 98, 103, 107)
+                N = rng.randint(50, 60)
+                n = N - 48
+                K = rng.randint(1, n)
+                c["_keep_last"] = True
             head = [F(1)] * (K - 1) + [F(0)] * (n - K)
             rng.shuffle(head)
             x = head + [F(1)]
@@ -1257,7 +1273,9 @@ def gen_boundary(rng, tier):
             if any(v > 1 for v in x) or len(x) > N:
                 continue
         b = len(x)
-        if len(x) < N and rng.chance(0.7):
+        if c.pop("_keep_last", False):
+            pass
+        elif len(x) < N and rng.chance(0.7):
             x.append(F(0))
         while len(x) < N and rng.chance(0.3):
             x.append(F(0))
@@ -1929,4 +1947,32 @@ def oracle_c10(case, ir):
     return None
 
 
-ORACLES = {"C11": oracle_c11, "C12": oracle_c12, "C13": oracle_c13, "C05": oracle_c05, "C10": oracle_c10}
+def oracle_c01(case, ir):
+    """certainty claimed without cause: a p-value of exactly 0 after j draws says "this sample cannot come from a null
+    population".  If the j draws total at most N t, the population made of them and N - j zeros IS a null population,
+    and this very sample has probability >= 1/(N)_j under it: the chance of rejecting at level alpha is then positive
+    for every alpha > 0, above alpha for small alpha.  Decided only where float and exact arithmetic must agree (the
+    running float total is the exact total of the doubles rounded once) and the product was not already astronomically
+    large (1/T underflowing to 0 is the overflow finding F27's territory)."""
+    if not valid_for_wellformed(case) or ir.get("st") != "ok":
+        return None
+    init = case["init"]
+    N = init["N"]
+    if N is None or case.get("int_dtype") or (init["test"] or "alpha_mart") not in ("alpha_mart", "betting_mart"):
+        return None
+    xd = [F(float(F(v))) for v in case["x"]]
+    td = F(float(F(init["t"])))
+    h = ir["hist"]
+    tot = F(0)
+    for j, v in enumerate(xd):
+        tot += v
+        if j < len(h) and h[j] == 0.0 and tot <= N * td and _single_rounding(xd[:j + 1]) and \
+                (j == 0 or (h[j - 1] == h[j - 1] and h[j - 1] > 1e-100)):
+            return {"what": f"p-value exactly 0 after {j + 1} draws totalling {float(tot)!r} <= N t = {float(N * td)!r}: "
+                            f"with {N - j - 1} zeros added these draws are a population with mean <= t, so the sample has "
+                            f"positive probability under a true null and is rejected at every risk limit",
+                    "draws": case["x"][:j + 1]}
+    return None
+
+
+ORACLES = {"C11": oracle_c11, "C12": oracle_c12, "C13": oracle_c13, "C05": oracle_c05, "C10": oracle_c10, "C01": oracle_c01}
